@@ -491,6 +491,11 @@ func (f *FuncCtx) frameObligations(r *State) {
 		if strings.HasPrefix(srt, "(Array Int ") && !strings.HasPrefix(h, "G_") {
 			al := f.heapTerm(f.initSt, "alloc", "(Array Int Bool)")
 			goal = "(forall ((q!p Int)) (=> (or (select " + al + " q!p) (= q!p 0)) (= (select " + r.heap[h] + " q!p) (select " + init + " q!p))))"
+			if ks, _, ok := innerArray(srt); ok {
+				// map heaps hold one array per object: compare them pointwise (equivalent by extensionality, and what the
+				// pointwise invariants about maps can discharge)
+				goal = "(forall ((q!p Int) (q!k " + ks + ")) (=> (or (select " + al + " q!p) (= q!p 0)) (= (select (select " + r.heap[h] + " q!p) q!k) (select (select " + init + " q!p) q!k))))"
+			}
 			if !f.useAlloc {
 				goal = "(= " + r.heap[h] + " " + init + ")"
 			}
@@ -780,4 +785,26 @@ func filterTagged(p string, props []string) string {
 	}
 	// tagged facts nested inside a merge disjunction: keep them all (strip markers)
 	return reTagged.ReplaceAllString(p, "")
+}
+
+// innerArray recognises "(Array Int (Array K V))" and returns K and V.
+func innerArray(srt string) (k, v string, ok bool) {
+	const pre = "(Array Int (Array "
+	if !strings.HasPrefix(srt, pre) || !strings.HasSuffix(srt, "))") {
+		return
+	}
+	rest := srt[len(pre) : len(srt)-2]
+	toks := sexpTokens("(" + rest + ")")
+	// toks: ( K... V... ) - split the two top-level terms
+	i := 1
+	end := i
+	if toks[i] == "(" {
+		end = matchParen(toks, i)
+	}
+	k = joinToks(toks[i : end+1])
+	v = joinToks(toks[end+1 : len(toks)-1])
+	if k == "" || v == "" {
+		return "", "", false
+	}
+	return k, v, true
 }
